@@ -105,7 +105,7 @@ async def _run(rec, case):
             target = R.next_target(MAXT, pp, prev)
             bits, prev_hash = R.target_to_compact(target), R.header_hash(chain[-1])
         ts += 800
-        chain.append(R.mine(1, prev_hash, root, r.randbytes(32), ts, bits, target, start_nonce=r.getrandbits(30)))
+        chain.append(R.mine(1, prev_hash, root, r.randbytes(32), ts, bits, min(target, R.compact_to_target(bits)), start_nonce=r.getrandbits(30)))
     genesis_hex = R.header_hash_hex(chain[0])
 
     class SimHeaders(Headers):
